@@ -184,6 +184,11 @@ def run_tlc(module, cfg, workers=None, timeout=600, simulate=None, depth=None, s
             cmd += extra
         cmd.append(module + ".tla")
         env = dict(os.environ)
+        # cap the JVM heap (TLC's wrapper would take 25% of RAM per run; several checks may run side by side)
+        jopts = env.get("JAVA_TOOL_OPTIONS", "")
+        if "-Xmx" not in jopts:
+            jopts = (jopts + " -Xmx%s" % os.environ.get("VERIF_TLC_HEAP", "6g")).strip()
+        env["JAVA_TOOL_OPTIONS"] = jopts
         if dfs:
             env["JAVA_TOOL_OPTIONS"] = (env.get("JAVA_TOOL_OPTIONS", "") + " -Dtlc2.tool.queue.IStateQueue=StateDeque").strip()
         if env_extra:
